@@ -6,6 +6,34 @@ import os
 ROOT = os.path.dirname(os.path.dirname(os.path.abspath(__file__)))
 
 CHECKS = {
+    "C08": {
+        "text": "Proof (Coq, closed under the global context) on the walker model with per-node faults and an abstract filter: a run "
+                "that was not aborted and reported no error has archived every node that is there, unfaulted, reached through "
+                "unfaulted directories and allowed at every prefix; it met no fault of the error class (permission / I/O errors "
+                "anywhere; vanished, type-changed or special paths at the top level) and no unrepresentable name; a fault-free "
+                "tree walks without error (no false alarm); an unprepared item or failing hook fails the run. Tied to the code by "
+                "real runs over generated trees (files, directories, symlinks, fifos, non-UTF-8 / CR / LF names, missing items) "
+                "with stat / open / readdir / read / readlink failures injected by strace at calls located in a reference trace, "
+                "singly and in pairs: exit status, error and warning counts and the published path set vs the extracted model; the "
+                "property and 'the source is never written' are evaluated on the real run.",
+        "note": "Partial: strace keeps one injection per system call name, so pairs use two different calls; abort-publishes-nothing "
+                "is observed on the real run (and is C03's subject on the op model). We run as root: EACCES is injected.",
+        "technique": "Coq proof on a faulted tree walk + system-call fault injection against the real binary",
+        "design": "7/C08",
+    },
+    "C19": {
+        "text": "Proof (Coq, closed under the global context): the trace of Backuper::run is the concatenation over a prefix of the "
+                "items, in configuration order, of before? work after?; the prefix is all items unless one aborted and then ends with "
+                "that item including its after hook; each started item has exactly one work segment between its hooks; a hook that "
+                "cannot be started or exits non-zero, or an unpreparable item, makes the run fail without skipping the item. Tied to "
+                "the code by tracing real runs over generated item lists (hooks absent / succeeding / failing / unstartable, items "
+                "missing / overlapping / aborting with an injected read error): the observed order of execve of the hook commands "
+                "and of opens below each item root, the hook log and the exit status vs the extracted model.",
+        "note": "'reads of an item's paths' are observed as openat / readlink at or below the item root by the main thread; bash is "
+                "trusted to run the configured command.",
+        "technique": "Coq proof (trace shape by induction over items) + system-call ordering traces of the real binary",
+        "design": "7/C19",
+    },
     "C03": {
         "text": "Proof (Coq, closed under the global context) on the volatile namespace of one group (EEXIST / ENOENT / ENOTEMPTY "
                 "semantics): after ANY list of calls confined to the temporary directory every final-named entry is an old one, "
